@@ -159,7 +159,7 @@ func checkC13(c *Ctx) *report.Result {
 					if k.Obj == m.PPU.ID && tp[k.Path] {
 						n++
 						fn := fnName(outerFn(at.Parent()))
-						if !allowed[fn] {
+						if !allowed[fn] && !c.onStack(allowed) {
 							viol[fn+" stores "+k.Path] = c.pos(at)
 						}
 					}
@@ -532,7 +532,7 @@ func checkC17(c *Ctx) *report.Result {
 				}
 				n++
 				fn := fnName(outerFn(at.Parent()))
-				if allowed[fn] {
+				if allowed[fn] || c.onStack(allowed) {
 					return
 				}
 				for _, f := range it.Stack {
